@@ -258,6 +258,9 @@ UNITS["C13"] = [
     _k("c13_validate_glyph_name_total_and_positions_in_range", "fea-rs", "fea-rs/src/parse/grammar/glyph.rs", ["fea_rs::parse::grammar::glyph::validate_glyph_name"], "bounded",
        "every byte string of 1..=6 bytes", "non-empty name",
        "no panic; Invalid(pos): pos inside the name, at the first disallowed byte (the caller slices raw[pos..]); Valid / MaybeRange: every byte allowed; MaybeRange <=> a '-' is present (the trigger of glyph-range splitting)"),
+    _k("c13_positional_diagnostics_lie_inside_the_source", "fea-rs", "fea-rs/src/parse/parser.rs", ["fea_rs::parse::parser::Parser::err_before_ws", "fea_rs::parse::parser::Parser::warn_before_ws"], "bounded",
+       "valid UTF-8 texts of <= 3 bytes; the parser placed directly in ANY state with buf[0].start_pos <= |text| on a char boundary (Parser::new bypassed), incl. the end-of-input state", "parser invariant start_pos <= |text|",
+       "the emitted diagnostic's range lies inside the text and both ends are character boundaries"),
     _k("c13_lexer_cover", "fea-rs", "fea-rs/src/parse/lexer.rs", [], "complete", "", "", "identifier, non-ASCII character, number reachable in the companion's input generator", kind="cover", timeout_s=1800, on_demand=True),
 ]
 
